@@ -205,6 +205,17 @@ fn dispatch_twin(which: Which) {
         return;
     }
     let t = be16(b, 0);
+    if which != Which::Generic && !is_grease(t) {
+        // recognition of a type does not depend on the content length: the same type with an empty body
+        let e = [b[0], b[1], 0, 0];
+        let r0 = ManuallyDrop::new(match which {
+            Which::Client => tp::parse_tls_client_hello_extension(&e[..]),
+            _ => tp::parse_tls_server_hello_extension(&e[..]),
+        });
+        if let (Ok((_, x0)), Ok((_, x))) = (&*r0, &*r) {
+            vassert!(matches!(x0, X::Unknown(_, _)) == matches!(x, X::Unknown(_, _)), "C05.dispatch.recognition_does_not_depend_on_content_length");
+        }
+    }
     if let Ok((_, x)) = &*r {
         if is_grease(t) {
             vassert!(matches!(x, X::Grease(g, _) if *g == t), "C05.dispatch.grease_preserved_as_Grease_type_data");
